@@ -50,7 +50,7 @@ G_ALT = G_MAIN.replace('"let"', '"var"')
 INPUTS = ['let x = 1 + a;', 'a + [1, b, [c]];', 'let y = (a);\n  b + 1;', '[];', 'let = 1;', 'a +;', 'a b;', '(a;', '', 'let x = [1,];', '1 + 2 + 3;\nlet z = q;', '$', 'a; <b>;']
 OPTION_SETS = [
     {}, {'keep_all_tokens': True}, {'propagate_positions': True}, {'maybe_placeholders': False}, {'lexer': 'basic'}, {'start': ['start', 'expr']},
-    {'g_regex_flags': 2}, {'debug': True}, {'priority': 'invert'}, {'strict': False, 'ordered_sets': False}, {'cache_grammar': True},
+    {'g_regex_flags': 2}, {'debug': True}, {'priority': 'invert'}, {'priority': None}, {'priority': 'normal'}, {'maybe_placeholders': True}, {'strict': False, 'ordered_sets': False}, {'cache_grammar': True},
 ]
 
 
@@ -100,6 +100,7 @@ class Env:
     def construct(self, g, opts, cache=True, extra=None):
         """-> ('ok', lark, served) | ('exc', canon) | ('wall',)"""
         from lark import Lark
+        opts = {k: v for k, v in opts.items() if not k.startswith('_')}       # _keys only label the expectation
         kw = dict(parser='lalr', source_path=self.main, **opts)
         if not cache:
             kw.pop('cache_grammar', None)       # only legal together with cache
@@ -444,7 +445,7 @@ def history(ctx, env, rng):
     cur, cur_extra = None, ''       # what the file on disk was last written for
     steps = []
     for i in range(rng.randint(6, 12)):
-        kind = rng.choice(['same', 'grammar', 'option', 'option', 'lib-edit', 'version', 'unhashable'])
+        kind = rng.choice(['same', 'grammar', 'option', 'option', 'lib-edit', 'version', 'unhashable', 'import-paths'])
         g = G_MAIN
         opts = {}
         extra = None
@@ -459,6 +460,16 @@ def history(ctx, env, rng):
             env.write_lib(libtext)
         elif kind == 'version':
             ver = rng.choice(['0.0.1', '99.0'])
+        elif kind == 'import-paths':
+            # the same text resolved through another import path, where lib.lark has other content
+            which = rng.choice(['A', 'B'])
+            d = os.path.join(env.dir, 'paths' + which)
+            os.makedirs(d, exist_ok=True)
+            with open(os.path.join(d, 'lib.lark'), 'w') as f:
+                f.write(LIB if which == 'A' else LIB2)
+            g = G_MAIN.replace('%import .lib.', '%import lib.')
+            extra, extra_key = {'import_paths': [d]}, ''
+            opts = {'_import_dir': which}
         elif kind == 'unhashable':
             which = rng.choice(['edit_terminals', 'postlex'])
             if which == 'edit_terminals':
@@ -475,7 +486,8 @@ def history(ctx, env, rng):
         try:
             same_key = cur == key
             changed = cur is not None and not same_key
-            fk = {'grammar': 'grammar-changed', 'option': 'option-changed', 'lib-edit': 'imported-file-edited', 'version': 'version-changed'}.get(kind)
+            fk = {'grammar': 'grammar-changed', 'option': 'option-changed', 'lib-edit': 'imported-file-edited', 'version': 'version-changed',
+                  'import-paths': 'import-paths-changed'}.get(kind)
             if fk:
                 ctx.count('step:' + fk)
             # the file on disk was written for (cur, cur_extra); lark's key cannot see `extra`
